@@ -597,6 +597,32 @@ class Specs:
                         "a0.overflowing_mul(a1)", expect="different", alg=wrong + ("flag",)))
         return out
 
+    # ------------------------------------------------------------------ E-codec (serde form, feature `serde`)
+    def serde(self, lay):
+        """the serde representation is the one-field struct {bits} holding the underlying integer: serialising through
+        a recording Serializer equals serialize_struct(name, 1) + serialize_field("bits", &bits) + end, and
+        deserialising the positional form reads exactly that integer"""
+        out = []
+        L, ity, nb = lay.name, lay.inner, lay.width // 8
+        name = lay.struct
+        spec_ser = ("{ let bits: %s = a0.to_bits(); let mut st = serde::Serializer::serialize_struct(Rec(&mut *a1), \"%s\", 1)?; "
+                    "serde::ser::SerializeStruct::serialize_field(&mut st, \"bits\", &bits)?; "
+                    "serde::ser::SerializeStruct::end(st) }" % (ity, name))
+        out.append(Pair("E-codec", "serde_serialize", L, "a0: &%s, a1: &mut Sink" % L, "Result<(), SErr>",
+                        "serde::Serialize::serialize(a0, Rec(&mut *a1))", spec_ser))
+        out.append(Pair("E-codec", "serde_serialize_wrapping", L, "a0: &substrate_fixed::Wrapping<%s>, a1: &mut Sink" % L,
+                        "Result<(), SErr>", "serde::Serialize::serialize(a0, Rec(&mut *a1))",
+                        spec_ser.replace("a0.to_bits()", "a0.0.to_bits()")))
+        spec_de = ("{ let mut b = [0u8; %d]; codec::Input::read(a0, &mut b).map_err(|_| SErr)?; "
+                   "Ok(<%s>::from_bits(%s::from_le_bytes(b))) }" % (nb, L, ity))
+        out.append(Pair("E-codec", "serde_deserialize", L, "a0: &mut Src", "Result<%s, SErr>" % L,
+                        "<%s as serde::Deserialize>::deserialize(De(&mut *a0))" % L, spec_de))
+        out.append(Pair("E-codec", "serde_deserialize_wrapping", L, "a0: &mut Src",
+                        "Result<substrate_fixed::Wrapping<%s>, SErr>" % L,
+                        "<substrate_fixed::Wrapping<%s> as serde::Deserialize>::deserialize(De(&mut *a0))" % L,
+                        spec_de.replace("Ok(", "Ok(substrate_fixed::Wrapping(").replace("(b))) }", "(b)))) }")))
+        return out
+
     # ------------------------------------------------------------------ E-codec
     def codec(self, lay, others=()):
         out = []
@@ -717,6 +743,47 @@ class Specs:
                 big = "i128"
             else:
                 big = None
+            if big is None and ((va[2] == 0 and vb[2] == vb[1]) or (vb[2] == 0 and va[2] == va[1])):
+                # an integer-valued operand n against an all-fraction operand x (|x| < 1; the two cannot be aligned in
+                # 128 bits): x = floor(x) + (a positive fraction iff its bits are not zero) with floor(x) = -1 for
+                # negative x and 0 otherwise, so n ? x is the lexicographic comparison of (n, 0) with (floor x, [bits != 0])
+                int_left = va[2] == 0 and not (va[2] == va[1])
+                vi, vx = (va, vb) if int_left else (vb, va)
+                ai, ax = ("a0", "a1") if int_left else ("a1", "a0")
+                ni = "(*%s).to_bits()" % ai if vi[3] else "(*%s)" % ai
+                xb = "(*%s).to_bits()" % ax if vx[3] else "(*%s)" % ax
+                lost = "((%s != 0) as u8)" % xb
+                if vi[0]:
+                    fl_x = "(if %s < 0 { -1i128 } else { 0i128 })" % xb if vx[0] else "0i128"
+                    core_ = "core::cmp::Ord::cmp(&((%s as i128), 0u8), &(%s, %s))" % (ni, fl_x, lost)
+                else:
+                    inner = "core::cmp::Ord::cmp(&((%s as u128), 0u8), &(0u128, %s))" % (ni, lost)
+                    core_ = ("(if %s < 0 { core::cmp::Ordering::Greater } else { %s })" % (xb, inner)) if vx[0] else inner
+                ordv = core_ if int_left else "core::cmp::Ordering::reverse(%s)" % core_
+                O2 = "core::cmp::Ordering"
+                rel2 = {"lt": "%s == %s::Less", "le": "%s != %s::Greater", "gt": "%s == %s::Greater", "ge": "%s != %s::Less"}
+                for m_, fmt in rel2.items():
+                    out.append(Pair("E-cmpx", m_ + "_intfrac", item, ps, "bool",
+                                    "<%s as core::cmp::PartialOrd<%s>>::%s(a0, a1)" % (lt, rt, m_), fmt % (ordv, O2)))
+                out.append(Pair("E-cmpx", "eq_intfrac", item, ps, "bool",
+                                "<%s as core::cmp::PartialEq<%s>>::eq(a0, a1)" % (lt, rt), "%s == %s::Equal" % (ordv, O2)))
+                out.append(Pair("E-cmpx", "partial_cmp_intfrac", item, ps, "Option<%s>" % O, pc, "Some(%s)" % ordv))
+                # the same obligations split by the operands' signs (see below)
+                ba = "(*a0).to_bits()" if va[3] else "(*a0)"
+                bb = "(*a1).to_bits()" if vb[3] else "(*a1)"
+                sides_a = [("an", "%s >= 0" % ba), ("ap", "%s < 0" % ba)] if va[0] else [("a", None)]
+                sides_b = [("bn", "%s >= 0" % bb), ("bp", "%s < 0" % bb)] if vb[0] else [("b", None)]
+                if va[0] or vb[0]:
+                    base = list(out[-6:])
+                    for ta, ga in sides_a:
+                        for tb, gb in sides_b:
+                            g = " || ".join(x_ for x_ in (ga, gb) if x_)
+                            for bp in base:
+                                dummy = "false" if bp.ret == "bool" else "None"
+                                pre = "if %s { return %s; } " % (g, dummy)
+                                nm = bp.cls.split("|", 1)[1]
+                                out.append(Pair("E-cmpx", "%s_%s%s" % (nm, ta, tb), item, ps, bp.ret,
+                                                "{ %s%s }" % (pre, bp.a), "{ %s%s }" % (pre, bp.b)))
             if big:
                 def al(arg, v):
                     bits = "(*%s).to_bits()" % arg if v[3] else "(*%s)" % arg
@@ -890,6 +957,85 @@ impl codec::Input for Src {
         for b in into.iter_mut() { *b = self.0[self.1 & 63]; self.1 += 1; }
         Ok(())
     }
+}
+"""
+
+
+# a recording serde Serializer / Deserializer for the `serde` family: integers are written / read as a tag byte
+# (signedness and width) plus their little-endian bytes, a struct as its name, its field count and its fields
+# (key, value); everything else is an error.  Both sides of a pair use the same one.
+SERDE_EXTRA = """
+extern crate serde;
+use serde::ser::{self, Impossible};
+use serde::de::{self, Visitor, SeqAccess, DeserializeSeed};
+#[derive(Debug)]
+pub struct SErr;
+impl core::fmt::Display for SErr { fn fmt(&self, f: &mut core::fmt::Formatter) -> core::fmt::Result { f.write_str("e") } }
+impl ser::StdError for SErr {}
+impl ser::Error for SErr { fn custom<T: core::fmt::Display>(_m: T) -> Self { SErr } }
+impl de::Error for SErr { fn custom<T: core::fmt::Display>(_m: T) -> Self { SErr } }
+pub struct Rec<'a>(pub &'a mut Sink);
+macro_rules! ser_int { ($($m:ident $t:ty = $tag:expr;)*) => { $(
+    #[inline] fn $m(self, v: $t) -> Result<(), SErr> { codec::Output::write(self.0, &[$tag]); codec::Output::write(self.0, &v.to_le_bytes()); Ok(()) } )* } }
+macro_rules! ser_no { ($($m:ident($($a:ty),*);)*) => { $( fn $m(self, $(_: $a),*) -> Result<(), SErr> { Err(SErr) } )* } }
+impl<'a> ser::Serializer for Rec<'a> {
+    type Ok = (); type Error = SErr;
+    type SerializeSeq = Impossible<(), SErr>; type SerializeTuple = Impossible<(), SErr>;
+    type SerializeTupleStruct = Impossible<(), SErr>; type SerializeTupleVariant = Impossible<(), SErr>;
+    type SerializeMap = Impossible<(), SErr>; type SerializeStruct = Rec<'a>; type SerializeStructVariant = Impossible<(), SErr>;
+    ser_int! { serialize_i8 i8 = 1; serialize_i16 i16 = 2; serialize_i32 i32 = 3; serialize_i64 i64 = 4; serialize_i128 i128 = 5;
+               serialize_u8 u8 = 11; serialize_u16 u16 = 12; serialize_u32 u32 = 13; serialize_u64 u64 = 14; serialize_u128 u128 = 15; }
+    ser_no! { serialize_bool(bool); serialize_f32(f32); serialize_f64(f64); serialize_char(char); serialize_str(&str); serialize_bytes(&[u8]);
+              serialize_unit_struct(&'static str); serialize_unit_variant(&'static str, u32, &'static str); }
+    fn collect_str<T: ?Sized + core::fmt::Display>(self, _v: &T) -> Result<(), SErr> { Err(SErr) }
+    fn serialize_none(self) -> Result<(), SErr> { Err(SErr) }
+    fn serialize_unit(self) -> Result<(), SErr> { Err(SErr) }
+    fn serialize_some<T: ?Sized + ser::Serialize>(self, _v: &T) -> Result<(), SErr> { Err(SErr) }
+    fn serialize_newtype_struct<T: ?Sized + ser::Serialize>(self, _n: &'static str, _v: &T) -> Result<(), SErr> { Err(SErr) }
+    fn serialize_newtype_variant<T: ?Sized + ser::Serialize>(self, _n: &'static str, _i: u32, _v: &'static str, _x: &T) -> Result<(), SErr> { Err(SErr) }
+    fn serialize_seq(self, _l: Option<usize>) -> Result<Self::SerializeSeq, SErr> { Err(SErr) }
+    fn serialize_tuple(self, _l: usize) -> Result<Self::SerializeTuple, SErr> { Err(SErr) }
+    fn serialize_tuple_struct(self, _n: &'static str, _l: usize) -> Result<Self::SerializeTupleStruct, SErr> { Err(SErr) }
+    fn serialize_tuple_variant(self, _n: &'static str, _i: u32, _v: &'static str, _l: usize) -> Result<Self::SerializeTupleVariant, SErr> { Err(SErr) }
+    fn serialize_map(self, _l: Option<usize>) -> Result<Self::SerializeMap, SErr> { Err(SErr) }
+    fn serialize_struct_variant(self, _n: &'static str, _i: u32, _v: &'static str, _l: usize) -> Result<Self::SerializeStructVariant, SErr> { Err(SErr) }
+    #[inline] fn serialize_struct(self, name: &'static str, len: usize) -> Result<Rec<'a>, SErr> {
+        codec::Output::write(self.0, &[200, len as u8, name.len() as u8]); codec::Output::write(self.0, name.as_bytes()); Ok(self) }
+    fn is_human_readable(&self) -> bool { false }
+}
+impl<'a> ser::SerializeStruct for Rec<'a> {
+    type Ok = (); type Error = SErr;
+    #[inline] fn serialize_field<T: ?Sized + ser::Serialize>(&mut self, key: &'static str, v: &T) -> Result<(), SErr> {
+        codec::Output::write(self.0, &[201, key.len() as u8]); codec::Output::write(self.0, key.as_bytes()); v.serialize(Rec(&mut *self.0)) }
+    #[inline] fn end(self) -> Result<(), SErr> { codec::Output::write(self.0, &[202]); Ok(()) }
+}
+pub struct De<'a>(pub &'a mut Src);
+macro_rules! de_int { ($($m:ident $v:ident $t:ty = $n:expr;)*) => { $(
+    #[inline] fn $m<V: Visitor<'de>>(self, vis: V) -> Result<V::Value, SErr> {
+        let mut b = [0u8; $n]; codec::Input::read(self.0, &mut b).map_err(|_| SErr)?; vis.$v(<$t>::from_le_bytes(b)) } )* } }
+macro_rules! de_no { ($($m:ident;)*) => { $( fn $m<V: Visitor<'de>>(self, _vis: V) -> Result<V::Value, SErr> { Err(SErr) } )* } }
+impl<'de, 'a> de::Deserializer<'de> for De<'a> {
+    type Error = SErr;
+    de_int! { deserialize_i8 visit_i8 i8 = 1; deserialize_i16 visit_i16 i16 = 2; deserialize_i32 visit_i32 i32 = 4; deserialize_i64 visit_i64 i64 = 8; deserialize_i128 visit_i128 i128 = 16;
+              deserialize_u8 visit_u8 u8 = 1; deserialize_u16 visit_u16 u16 = 2; deserialize_u32 visit_u32 u32 = 4; deserialize_u64 visit_u64 u64 = 8; deserialize_u128 visit_u128 u128 = 16; }
+    de_no! { deserialize_any; deserialize_bool; deserialize_f32; deserialize_f64; deserialize_char; deserialize_str; deserialize_string; deserialize_bytes;
+             deserialize_byte_buf; deserialize_option; deserialize_unit; deserialize_seq; deserialize_map; deserialize_identifier; deserialize_ignored_any; }
+    fn deserialize_unit_struct<V: Visitor<'de>>(self, _n: &'static str, _v: V) -> Result<V::Value, SErr> { Err(SErr) }
+    fn deserialize_newtype_struct<V: Visitor<'de>>(self, _n: &'static str, _v: V) -> Result<V::Value, SErr> { Err(SErr) }
+    fn deserialize_tuple<V: Visitor<'de>>(self, _l: usize, _v: V) -> Result<V::Value, SErr> { Err(SErr) }
+    fn deserialize_tuple_struct<V: Visitor<'de>>(self, _n: &'static str, _l: usize, _v: V) -> Result<V::Value, SErr> { Err(SErr) }
+    fn deserialize_enum<V: Visitor<'de>>(self, _n: &'static str, _vs: &'static [&'static str], _v: V) -> Result<V::Value, SErr> { Err(SErr) }
+    #[inline] fn deserialize_struct<V: Visitor<'de>>(self, _n: &'static str, fields: &'static [&'static str], vis: V) -> Result<V::Value, SErr> {
+        vis.visit_seq(OneSeq(self.0, fields.len())) }
+    fn is_human_readable(&self) -> bool { false }
+}
+pub struct OneSeq<'a>(pub &'a mut Src, pub usize);
+impl<'de, 'a> SeqAccess<'de> for OneSeq<'a> {
+    type Error = SErr;
+    #[inline] fn next_element_seed<T: DeserializeSeed<'de>>(&mut self, seed: T) -> Result<Option<T::Value>, SErr> {
+        if self.1 == 0 { return Ok(None); }
+        self.1 -= 1;
+        seed.deserialize(De(&mut *self.0)).map(Some) }
 }
 """
 
